@@ -92,8 +92,11 @@ def gen_cases(tier, seed):
                     # the exclusive lock a process that is about to replace the file has to take
                     # "holder-range": the foreign lock covers a byte range only - any range conflicts with a lock on
                     # the whole file
-                    for mode in ("holder", "holder-sh", "holder-range", "EAGAIN", "EACCES"):
-                        if nolock and mode in ("EACCES", "holder-sh", "holder-range"):
+                    # "holder+ETXTBSY" / "holder+EROFS": a real holder, and the open-for-write that precedes the lock
+                    # attempt fails (the file is a running program / on a read-only mount): not being able to even try
+                    # the lock is no licence to proceed
+                    for mode in ("holder", "holder-sh", "holder-range", "holder+ETXTBSY", "holder+EROFS", "EAGAIN", "EACCES"):
+                        if nolock and mode in ("EACCES", "holder-sh", "holder-range", "holder+ETXTBSY", "holder+EROFS"):
                             continue
                         yield {"sc": sc, "op": op, "locked": list(s), "nolock": nolock, "mode": mode,
                                "drop": drop, "n_clean": n_clean}
@@ -121,6 +124,9 @@ def run_case(case):
             if holder.stdout.readline().strip() != b"ready":
                 holder.kill()
                 raise core.HarnessError("lock holder failed to start")
+            if "+" in case["mode"]:
+                for p in locked:
+                    plan.append(rule(kind="openw", path=b2s(ops.absw(rd, p)), act="errno:" + case["mode"].split("+")[1], count="inf"))
         else:
             for p in locked:
                 plan.append(rule(kind="setlk", path=b2s(ops.absw(rd, p)), act="errno:" + case["mode"], count="inf"))
